@@ -1,7 +1,7 @@
 """C14 - handlers may re-enter the engine without deadlock."""
 import evalfam as ef
 
-ACTS = ["parse", "execute", "regfun", "regprefix", "reginfix", "regpostfix", "lockctx-blocking"]
+ACTS = ["parse", "execute", "regfun", "regprefix", "reginfix", "regpostfix", "lockctx-blocking", "execute+text", "lockctx-blocking+text"]
 
 
 def check(run):
@@ -11,7 +11,10 @@ def check(run):
                      "handler is ever entered with the context lock held and that no state is a deadlock (negative control: BareRefHoldsLock); leg R: each depth-1 behaviour is executed by the real "
                      "evaluator 7 more times, every handler additionally performing one re-entrant action - parse_expression, execute, register_function / prefix / infix / postfix, and a "
                      "*blocking* lock of the evaluating context's handle - in a supervised child process (a deadlock is a watchdog time-out, bisected to the case); the outer evaluation must "
-                     "complete with the normal result; non-trivial = at least one handler invocation")
+                     "complete with the normal result; two more passes run the OUTER evaluation through execute(text) on the rendered program, twice, with handlers that execute / lock the context "
+                     "(what execute() keeps between calls is then in play while handlers re-enter); non-trivial = at least one handler invocation")
+    run.rules.append("directed: a registered function whose handler evaluates a sub-program calling it again (4 / 16 / 40 levels, each under 40 prefix minuses) and a context function reached by "
+                     "bare name that evaluates `[[..[again]..]]` on a context holding itself: the outermost evaluation must return the innermost value")
     run.rules.append("leg T: every handler entry of every recorded random evaluation logs try_lock() on the context handle and on the five global stores; TLC requires all free")
     ef.eval_model_and_replay(run, "reent-d1", ef.mceval_cfg("c14-d1", depth=1, full_faults=False), "C14", acts=[None] + ACTS, sample_filter=lambda r: len(r["log"]) >= 1)
     # handlers that lock the evaluating context AND write to it
@@ -23,6 +26,16 @@ def check(run):
         run.tlc("M:Eval/reent-d2", res)
         if res.violation:
             run.model_violation("Eval/reent-d2", res)
+    # directed: re-entrancy at depth (a re-entrant evaluation is an ordinary evaluation; nothing may add up across the nested evaluations of one thread)
+    import core
+    for levels, pad in ((4, 40), (16, 40), (40, 40)) + (((80, 60),) if thorough else ()):
+        out, _ = core.run_vh(["reent-depth", "--levels", levels, "--pad", pad])
+        run.traces += 2
+        run.evaluations += 2
+        for kind, prog in (("fn", "deepf(%d), each level under %d prefix minuses" % (levels, pad)), ("bare", "`again` by bare name inside %d list brackets, %d levels" % (min(pad, 30), levels))):
+            if not out or out[0][kind][0] != "ok" or out[0][kind][1] != ["num", False, [1], 0]:
+                run.violation("C14/eval/depth", "nested re-entrant evaluation (%s) gave %s instead of Ok(1)" % (prog, out[0][kind] if out else None), {"family": "reent-depth", "levels": levels, "pad": pad})
+    run.leg("R:reent-depth", probes=3 + (1 if thorough else 0))
     ef.eval_trace(run, "random", 20000 if thorough else 3000, run.seed + 13, "C14")
     run.exhaustive = False
     run.assumptions += ["re-entrant registrations use fresh names (reent_*), so they do not change the outer evaluation's result",
@@ -31,4 +44,10 @@ def check(run):
 
 
 def replay(path, seed):
+    import json, core
+    case = json.load(open(path))["case"]
+    if case.get("family") == "reent-depth":
+        out, _ = core.run_vh(["reent-depth", "--levels", case["levels"], "--pad", case["pad"]])
+        print(json.dumps(out))
+        return 0 if out and all(out[0][k] == ["ok", ["num", False, [1], 0]] for k in ("fn", "bare")) else 1
     return ef.replay(path, seed)
